@@ -81,7 +81,8 @@ def nametable(entries):
 
 # outlier detection (threshold, volume): every kind of single-field change between two picks is likely
 # (threshold only, volume only, to/from zero, to/from absent)
-OUTLIERS = [None, None, (10, 5), (30, 5), (10, 100), (30, 100), (100, 100), (0, 5), (50, 0), (0, 0)]
+OUTLIERS = [None, None, (10, 5), (30, 5), (10, 100), (30, 100), (100, 100), (0, 5), (50, 0), (0, 0),
+            (2, 2147483648), (4, 1073741824), (64, 67108864), (100, 4294967295)]   # products that wrap in 32 bits
 
 
 class SysGen:
@@ -129,6 +130,14 @@ class SysGen:
         r = self.r
         self.version += 1
         op = {"op": "resp", "rt": rt, "version": "v%d" % self.version, "nonce": "n%d" % self.version, "resources": []}
+        # a control plane may repeat a version string and number its nonces per stream: now and then a response carries
+        # exactly the (version, nonce) of the previous response of its type (e.g. the first one after a reconnect)
+        last = getattr(self, "_last_vn", None)
+        if last is None:
+            last = self._last_vn = {}
+        if rt in last and r.random() < 0.12:
+            op["version"], op["nonce"] = last[rt]
+        last[rt] = (op["version"], op["nonce"])
         if rt == "nds":
             if r.random() < 0.08:
                 return op, tbl                                  # empty NDS: NACK
